@@ -405,6 +405,11 @@ def structured_method(r, name, static=True):
     g.emit("return", "", g.var())
     # a goto16 to the immediately following label has offset 1 (legal); offset 0 cannot occur (labels follow the goto)
     access = A.ACC_PUBLIC | (A.ACC_STATIC if static else 0)
+    # compiler-generated and less common modifiers (bridge 0x40, varargs 0x80, synthetic 0x1000, strict 0x800,
+    # declared-synchronized 0x20000, final 0x10, synchronized 0x20)
+    for flag, p in ((0x40, 0.12), (0x1000, 0.15), (0x80, 0.08), (0x20000, 0.08), (0x10, 0.2), (0x800, 0.05), (0x20, 0.05)):
+        if r.random() < p:
+            access |= flag
     regs = g.regs + (0 if static else 1)
     return {"name": name, "ret": "I", "params": ["I", "I"], "access": access,
             "code": {"regs": regs, "insns": g.insns, "tries": g.tries}}
